@@ -189,7 +189,7 @@ func (i UInt16) ExponentiateUInt16(other UInt16) UInt16 {
 	}
 	result := i
 	var j UInt16
-	for j = 2; j <= other; j++ {
+	for j = other; j > 1; j-- {
 		result *= i
 	}
 	return result
